@@ -80,6 +80,10 @@ def neg_cases(tier, seed):
     for _ in range(5000 if tier == "quick" else 50000):   # other 1-3 digit weights
         es = [(rng.choice(CODINGS[:3]), rng.choice(allw)) for _ in range(rng.randrange(1, 4))]
         add(es, rng.choice(STYLES))
+    # every string of up to 4 symbols, read by the TLA+ transcription of the grammar (HdrLex.tla)
+    import lexgen
+    for s_, a in lexgen.cases("ae", 4):
+        cases.append({"id": len(cases) + 1, "hdr": s_, "abs": a})
     # arbitrary bytes: no claim beyond "no panic"
     alphabet = list(range(0x20, 0x7f)) + [0x09] + list(range(0x80, 0x100))
     ng = 100000 if tier == "thorough" else 15000
